@@ -10,6 +10,7 @@ git apply $D/patch.diff || { echo "CONFIRM patch-does-not-apply"; exit 1; }
 suite=$(/tmp/r3/runtests.sh $WT | grep '^RESULT' )
 place_demo() {
   if [ -f $D/extra/demo.patch ]; then git apply $D/extra/demo.patch || echo "demo.patch failed"; fi
+  if [ -n "${CONFIRM_PRE:-}" ]; then ( eval "$CONFIRM_PRE" ) || echo "pre-step failed"; fi
   for m in "$@"; do src=${m%%=*}; dst=${m#*=}; mkdir -p $(dirname $WT/$dst); cp $D/extra/$src $WT/$dst; done
 }
 place_demo "$@"
